@@ -46,7 +46,7 @@ SpecialForms == {"def", "let", "quote", "quasiquote", "quasiquoteexpand", "defma
 
 \* builtins that need the evaluator or the state
 StateNames == {"trace!", "throw", "atom", "deref", "reset!", "swap!", "apply", "map", "eval",
-               "update", "raise!", "boom!", "boom-str!", "depth!", "future-call"}
+               "update", "update-in", "raise!", "boom!", "boom-str!", "depth!", "future-call"}
 BuiltinNames == PureNames \cup StateNames
 
 \* ---------------------------------------------------------------- scopes
@@ -140,7 +140,7 @@ QQWellFormed(t) ==
 
 RECURSIVE Ev(_, _, _), EvArgs(_, _, _, _, _), EvBody(_, _, _, _), EvBodySub(_, _, _, _), EvLet(_, _, _, _),
           ApplyFn(_, _, _), QQ(_, _, _), QQSeq(_, _, _, _, _), EvMapLit(_, _, _, _, _),
-          Expand(_, _, _), CallBuiltin(_, _, _), MapF(_, _, _, _, _)
+          Expand(_, _, _), CallBuiltin(_, _, _), MapF(_, _, _, _, _), UpdateIn(_, _, _, _, _)
 
 \* evaluate forms xs[i..] in scope e; value of the last; nil when there is none
 \* a sub-evaluation (not in tail position): one level deeper, depth restored afterwards
@@ -232,6 +232,24 @@ MapF(f, xs, i, st, acc) ==
   ELSE LET r == ApplySub(f, <<xs[i]>>, st) IN
     IF ~Ok(r) THEN r ELSE MapF(f, xs, i + 1, r.st, Append(acc, r.v))
 
+\* (update-in coll path f): f applied to the value at the path (nil when missing; missing or nil
+\* intermediate levels become maps); the empty path returns coll unchanged (tests/stepG_infunctions.mal)
+UpdateIn(v, path, i, f, st) ==
+  IF i > Len(path) THEN R("val", v, st)
+  ELSE LET p == path[i] IN
+    IF v.t = "map" /\ IsKeyable(p) THEN
+      LET k == KeyOf(p)
+          cur == IF k \in DOMAIN v.m THEN v.m[k] ELSE NilV
+          r == IF i = Len(path) THEN ApplySub(f, <<cur>>, st)
+               ELSE UpdateIn(IF cur.t = "nil" THEN MapV(EmptyMap) ELSE cur, path, i + 1, f, st)
+      IN IF ~Ok(r) THEN r ELSE R("val", MapV(MapPut(v.m, k, r.v)), r.st)
+    ELSE IF v.t = "vec" /\ p.t = "int" /\ p.i >= 0 /\ p.i < Len(v.xs) THEN
+      LET cur == v.xs[p.i + 1]
+          r == IF i = Len(path) THEN ApplySub(f, <<cur>>, st)
+               ELSE IF cur.t = "nil" THEN R("unspec", NilV, st) ELSE UpdateIn(cur, path, i + 1, f, st)
+      IN IF ~Ok(r) THEN r ELSE R("val", VecV([v.xs EXCEPT ![p.i + 1] = r.v]), r.st)
+    ELSE R("unspec", NilV, st)
+
 CallBuiltin(name, a, st) ==
   LET n == Len(a) IN
   IF name \in PureNames THEN
@@ -288,6 +306,11 @@ CallBuiltin(name, a, st) ==
            LET r == ApplySub(a[3], <<a[1].xs[a[2].i + 1]>>, st)
            IN IF ~Ok(r) THEN r ELSE R("val", VecV([a[1].xs EXCEPT ![a[2].i + 1] = r.v]), r.st)
          ELSE R("unspec", NilV, st)
+    [] name = "update-in" ->
+         IF n # 3 THEN R("err", ErrV("builtin"), st)
+         ELSE IF a[2].t # "vec" THEN R("err", ErrV("builtin"), st)
+         ELSE IF a[1].t = "nil" THEN R("val", NilV, st)
+         ELSE UpdateIn(a[1], a[2].xs, 1, a[3], st)
     [] name = "eval" -> IF n # 1 THEN R("unspec", NilV, st) ELSE EvSub(a[1], 1, st)
     [] name = "depth!" -> R("val", IF n >= 1 THEN a[1] ELSE NilV, [st EXCEPT !.depths = Append(@, st.depth)])
     [] OTHER -> R("unspec", NilV, st)
@@ -327,7 +350,9 @@ Ev(a, e, st0) ==
              [] h.s = "quasiquote" -> IF n # 2 THEN R("unspec", NilV, st)
                                       ELSE IF st.track /\ QQWellFormed(a.xs[2]) THEN Ev(QQRewrite(a.xs[2]), e, st)
                                       ELSE QQ(a.xs[2], e, st)
-             [] h.s = "quasiquoteexpand" -> R("unspec", NilV, st)
+             \* the expansion as coded (documented in tests/step7_quote.mal)
+             [] h.s = "quasiquoteexpand" -> IF n # 2 \/ ~QQWellFormed(a.xs[2]) THEN R("unspec", NilV, st)
+                                            ELSE R("val", QQRewrite(a.xs[2]), st)
              [] h.s = "defmacro" ->
                   IF n # 3 \/ a.xs[2].t # "sym" THEN R("unspec", NilV, st)
                   ELSE LET r == EvSub(a.xs[3], e, st) IN
